@@ -41,7 +41,7 @@ Init == /\ depth = 0
 Step == depth < DEPTH /\ depth' = depth + 1
 DoSeek(p) == Step /\ Seek(p)
 \* rewind relative to the current position (re-reading what was just produced)
-RelSet == IF TIER \in {"quick", "c11"} THEN {1, 64, 65} ELSE {1, 2, 63, 64, 65, 128, 256, 257}
+RelSet == IF TIER \in {"quick", "c11"} THEN {0, 1, 64, 65} ELSE {0, 1, 2, 63, 64, 65, 128, 256, 257}    \* 0: seek to the current position
 DoSeekRel(d) == Step /\ WLe(LI(d), pos) /\ WLe(WSub(pos, LI(d)), L64m) /\ Seek(WSub(pos, LI(d)))
 DoSeekBad == Step /\ SeekUnconvertible
 DoApply(n) == Step /\ Apply(n)
